@@ -8,6 +8,9 @@
   tools/seeded.py run <seed_id> [property ...]
       applies seeded/<seed_id>/patch.diff to /repo, runs ./check for the given properties (default: the one in
       meta.json), reverts /repo (git checkout -- .), records the outcome in seeded/<seed_id>/meta.json.
+  tools/seeded.py prun <jobs> [seed_id ...]
+      the own-property check of many (default: all) seeded changes in parallel, each worker in its own copy of /verif with its own
+      scratch worktree of /repo (under /root/scratch); /repo itself is not touched.
 The scratch worktree lives under /tmp and is removed afterwards.
 """
 import json
@@ -104,8 +107,73 @@ def run(seed_id, props):
     return 0
 
 
+def prun(jobs, ids):
+    """run the own-property check of many seeded changes in parallel: each worker has its own copy of /verif and its own
+    scratch worktree of /repo (VERIF_REPO / PYTHONPATH point the copy's checks at it); /repo itself is not touched"""
+    import glob
+    import threading
+    ids = ids or sorted(os.path.basename(d) for d in glob.glob(os.path.join(VERIF, "seeded", "C*")) if os.path.isdir(d))
+    todo = list(ids)
+    lock = threading.Lock()
+    par = "/root/scratch/par_seeded"
+    os.makedirs(par, exist_ok=True)
+    results = {}
+
+    def worker(i):
+        vc, wt = os.path.join(par, f"v{i}"), os.path.join(par, f"r{i}")
+        sh(["git", "-C", REPO, "worktree", "remove", "--force", wt])
+        shutil.rmtree(wt, ignore_errors=True)
+        shutil.rmtree(vc, ignore_errors=True)
+        sh(["rsync", "-a", "--exclude", ".git", "--exclude", "replays", VERIF + "/", vc + "/"])
+        rc, out = sh(["git", "-C", REPO, "worktree", "add", "-q", "--detach", wt, "HEAD"])
+        if rc:
+            print(out)
+            return
+        env = dict(os.environ, VERIF_REPO=wt, PYTHONPATH=wt, VERIF_EVIDENCE_DIR=os.path.join(vc, "evidence_patched"))
+        while True:
+            with lock:
+                if not todo:
+                    break
+                sid = todo.pop(0)
+            dst = os.path.join(VERIF, "seeded", sid)
+            meta = json.load(open(os.path.join(dst, "meta.json")))
+            p = meta["breaks_property"]
+            rc, out = sh(["git", "apply", os.path.join(dst, "patch.diff")], cwd=wt)
+            if rc:
+                print(sid, "patch does not apply", out[-200:])
+                continue
+            try:
+                rc, out = sh([os.path.join(vc, "check"), p], cwd=vc, timeout=3600, env=env)
+                lines = [l for l in out.splitlines() if l.startswith(("VIOLATION", "OK ", "MODEL-ERROR", "INFRA-ERROR", "KNOWN-FINDING"))]
+                res = {"exit": rc, "lines": lines[:12], "caught": rc == 1 and any(l.startswith("VIOLATION") for l in lines),
+                       "with_failing_input": any(l.startswith("VIOLATION") and "no-failing-input-found" not in l for l in lines)}
+            finally:
+                sh(["git", "checkout", "--", "."], cwd=wt)
+            with lock:
+                meta = json.load(open(os.path.join(dst, "meta.json")))
+                meta["checks"][p] = res
+                json.dump(meta, open(os.path.join(dst, "meta.json"), "w"), indent=1)
+                results[sid] = res
+                print(sid, p, "exit", res["exit"], lines[:2], flush=True)
+        sh(["git", "-C", REPO, "worktree", "remove", "--force", wt])
+        shutil.rmtree(wt, ignore_errors=True)
+        shutil.rmtree(vc, ignore_errors=True)
+
+    ths = [threading.Thread(target=worker, args=(i,)) for i in range(jobs)]
+    for t in ths:
+        t.start()
+    for t in ths:
+        t.join()
+    sh(["git", "-C", REPO, "worktree", "prune"])
+    bad = [k for k, v in results.items() if not v["with_failing_input"]]
+    print(f"{len(results)} seeded changes run, {len(results) - len(bad)} caught with a failing input; not: {bad}")
+    return 0 if not bad else 1
+
+
 if __name__ == "__main__":
     if sys.argv[1] == "confirm":
         sys.exit(confirm(sys.argv[2], sys.argv[3], sys.argv[4]))
     elif sys.argv[1] == "run":
         sys.exit(run(sys.argv[2], sys.argv[3:]))
+    elif sys.argv[1] == "prun":
+        sys.exit(prun(int(sys.argv[2]), sys.argv[3:]))
